@@ -33,7 +33,9 @@ def parse_field(
     # Add Command
     subparser.add_parser(
         field.info.title or field.info.alias or field.name,
-        help=field.info.description,
+        help=field.info.description.replace("%", "%%")
+        if field.info.description is not None
+        else None,
         model=field.model_type,
         exit_on_error=False,  # Allow top level parser to handle exiting
         extra_defaults=extra_defaults,
